@@ -259,6 +259,7 @@ func init() {
 			}
 			return &MapV{}
 		}
+		p.mapTouch(mv.M)
 		p.objN++
 		m := &MapObj{ID: p.objN, Typ: mv.M.Typ}
 		for _, e := range mv.M.Entries {
